@@ -329,11 +329,13 @@ impl Scenario for C17Corrupt {
             // 3. not before the malformed unit's first token, not after the first bad byte.
             //    s_k is the first non-blank byte after the previous unit (a leading comment
             //    counts as the first token or not, whichever the code chose).
-            let first_nonblank = (unit.wide_start..unit.end).find(|i| !ctext.as_bytes().get(*i).is_some_and(|b| b.is_ascii_whitespace())).unwrap_or(unit.start);
+            //    A comment is not a token: the lower bound is the first byte of the unit's own
+            //    first token (calibrated on the unchanged tree: the lexer skips leading comments
+            //    before it records a position).
             if r.offset > pos {
                 out.violate("not-after-first-bad-byte", format!("reported offset {} lies after the first corrupted byte {pos}; {ctx}", r.offset));
-            } else if r.offset < first_nonblank.min(unit.start) {
-                out.violate("not-before-malformed-unit", format!("reported offset {} lies before the first token ({}) of the malformed {}; {ctx}", r.offset, first_nonblank.min(unit.start), unit.kind));
+            } else if r.offset < unit.start {
+                out.violate("not-before-malformed-unit", format!("reported offset {} lies before the first token ({}) of the malformed {}; {ctx}", r.offset, unit.start, unit.kind));
             }
             // 4. the three renderings agree on the line
             match (parse_display(&rend.display), parse_context(&rend.contextualized)) {
